@@ -56,10 +56,10 @@ func c10Seeds(thorough bool) []*c10Seed {
 
 // ---------------------------------------------------------------- entry points
 
-const c10Entries = 11
+const c10Entries = 12
 
 var c10EntryNames = []string{"Lexer.Next", "Lexer.Next(validate,emitInvalid)", "Lexer.Next(limits 1MiB,validate)", "Lexer.Next(emitChunks)+Parse*", "Lexer.Next(no callback, seekable)",
-	"Reader.Info+ChannelCounts", "Messages(unindexed)", "Messages(indexed,file order,metadata callback)", "Messages(log time)", "Messages(reverse)", "GetAttachmentReader/GetMetadata"}
+	"Reader.Info+ChannelCounts", "Messages(unindexed)", "Messages(indexed,file order,metadata callback)", "Messages(log time)", "Messages(reverse)", "GetAttachmentReader/GetMetadata", "Lexer.Next(emitChunks, limits 1MiB)"}
 
 func attCallback(ar *mcap.AttachmentReader) error {
 	if _, err := io.Copy(io.Discard, ar.Data()); err != nil {
@@ -157,7 +157,7 @@ func runEntry(e int, b []byte) iso.Outcome {
 	limit := len(b) + 64
 	site := func(p any) string { return gow.PanicSite(p) }
 	var ceiling uint64
-	if e == 2 {
+	if e == 2 || e == 11 {
 		ceiling = 24<<20 + uint64(len(b))*4 // configured limits (1 MiB) x small constant + input size
 	}
 	o := iso.Guard(c10EntryNames[e], ceiling, site, func() error {
@@ -195,6 +195,8 @@ func runEntry(e int, b []byte) iso.Outcome {
 			return iterAll(b, true, limit, mcap.UsingIndex(true), mcap.InOrder(mcap.LogTimeOrder))
 		case 9:
 			return iterAll(b, true, limit, mcap.UsingIndex(true), mcap.InOrder(mcap.ReverseLogTimeOrder))
+		case 11:
+			return lexAll(bytes.NewReader(b), &mcap.LexerOptions{EmitChunks: true, MaxRecordSize: 1 << 20, MaxDecompressedChunkSize: 1 << 20}, limit, true)
 		case 10:
 			rd, err := mcap.NewReader(bytes.NewReader(b))
 			if err != nil {
@@ -437,7 +439,7 @@ func legitBig(b []byte) bool {
 
 // C10: no input can crash or exhaust the process; bad files yield errors.
 func C10(r *chk.Run) {
-	r.Rule("bounded-exhaustive structured mutation of valid seed files in isolated workers (ulimit -v 8 GiB, 64 MiB stack, 30 s per call, per-call allocation accounting): POSITION-EXHAUSTIVE depth 1 - for every byte offset of every seed and every width in {1,2,4,8} the bytes are overwritten with each hostile value of that width {0,1,...,2^15,2^16-1,2^31,2^32-1,2^40,2^63-1,2^63,2^64-9,2^64-1} and with v-1, v+1 (every length/offset/size/count/time/id/opcode field starts at some offset); STRUCTURAL - every record duplicated / removed / swapped with its neighbour, values just below 2^31 on one length field per record kind, compression names of every length 0..40; every mutant goes through 11 decode entry points (lexer under 5 option sets incl. every Parse*, Info+ChannelCounts, 4 iterator modes, random access); outcome must be ok or error - never panic, process death, stall or allocation beyond the ceilings; distinct = entry-point calls")
+	r.Rule("bounded-exhaustive structured mutation of valid seed files in isolated workers (ulimit -v 8 GiB, 64 MiB stack, 30 s per call, per-call allocation accounting): POSITION-EXHAUSTIVE depth 1 - for every byte offset of every seed and every width in {1,2,4,8} the bytes are overwritten with each hostile value of that width {0,1,...,2^15,2^16-1,2^31,2^32-1,2^40,2^63-1,2^63,2^64-9,2^64-1} and with v-1, v+1 (every length/offset/size/count/time/id/opcode field starts at some offset); STRUCTURAL - every record duplicated / removed / swapped with its neighbour, values just below 2^31 on one length field per record kind, compression names of every length 0..40; every mutant goes through 12 decode entry points (lexer under 6 option sets incl. every Parse*, Info+ChannelCounts, 4 iterator modes, random access); outcome must be ok or error - never panic, process death, stall or allocation beyond the ceilings; distinct = entry-point calls")
 	r.Assume("seeds are written without CRCs so that no path is masked by a checksum failure; truncations are C09's, multi-fault (depth 2) mutations are thorough-only")
 	seeds := c10Seeds(r.Thorough())
 	thorough := r.Thorough()
